@@ -229,10 +229,23 @@ static Result run_scenario(const Case& c, uint64_t k, uint64_t mode, uint64_t* n
   r.ok = false; r.msg = "unknown campaign"; return r;
 }
 
-static Result run_case(const std::string& prop, const Case& c) {
+static Result run_case(const std::string& prop, const Case& c0) {
   uint64_t n = 0;
   if (prop != "C06") { Result r; r.ok = false; r.msg = "drv_fault serves C06 only"; return r; }
-  return run_scenario(c, c.aux[0], c.aux[1], &n);
+  if (c0.campaign == "FUZZ") {
+    // fuzz input: byte 0 = scenario (LOAD / COPY / SERA on decoded bytes, COPY / SERA / PROGF on a construction program),
+    // byte 1 = index of the refused request, byte 2 bit 0 = fail-stop mode; the rest is the input / program
+    if (c0.data.size() < 4) { Result r; r.skipped = true; return r; }
+    static const char* camps[] = {"LOAD", "COPY", "SERA", "COPY", "SERA", "PROGF"};
+    Case c; unsigned sel = c0.data[0] % 6; c.campaign = camps[sel]; c.aux[3] = sel >= 3 ? 1 : 0; c.aux[0] = c0.data[1] % 64; c.aux[1] = c0.data[2] & 1;
+    c.data.assign(c0.data.begin() + 3, c0.data.end());
+    // the scenario must be valid fault-free (a loadable input / a buildable program); otherwise it is outside the domain
+    Result base = run_scenario(c, NOFAULT, 0, &n);
+    if (!base.ok) { Result r; r.skipped = true; return r; }
+    if (c.aux[0] >= n) { Result r; r.skipped = true; return r; }
+    return run_scenario(c, c.aux[0], c.aux[1], &n);
+  }
+  return run_scenario(c0, c0.aux[0], c0.aux[1], &n);
 }
 
 // ------------------------------------------------------------------------------ campaigns
@@ -305,9 +318,15 @@ static void run_campaigns(Ctx& ctx) {
                            " entries; LOAD/COPY/SERA: every E2 encoding with <= " + (thorough ? "3" : "2") + " nodes and every E2p encoding; COPY/SERA/PROGF: API-made trees from all 1-byte and seeded construction programs (negative ints of every width, tags, shared nodes, chunked strings)";
 }
 
-int main(int argc, char** argv) {
+static void driver_init() {
   cbor_set_allocs(va::vmalloc, va::vrealloc, va::vfree);
   va::g.single_cap = (size_t)1 << 24;
-  vh::Driver drv{"drv_fault", run_campaigns, run_case};
+}
+static const char* kDriverName = "drv_fault";
+#ifndef VH_FUZZ_TARGET
+int main(int argc, char** argv) {
+  driver_init();
+  vh::Driver drv{kDriverName, run_campaigns, run_case};
   return vh::driver_main(argc, argv, drv);
 }
+#endif
